@@ -7,8 +7,8 @@ import findings
 import props
 
 VERIF = os.path.dirname(os.path.dirname(os.path.abspath(__file__)))
-EVID = os.path.join(VERIF, 'evidence')
-REPLAYS = os.path.join(VERIF, 'replays')
+EVID = os.environ.get('VERIF_EVIDENCE_DIR') or os.path.join(VERIF, 'evidence')
+REPLAYS = os.environ.get('VERIF_REPLAY_DIR') or os.path.join(VERIF, 'replays')
 
 OVERFLOW_MSGS = ('possible arithmetic underflow/overflow', 'possible division by zero', 'possible bit shift underflow/overflow')
 
@@ -45,6 +45,9 @@ def conclude(pid, spec, results, tier, seed, wall, kani=()):
     violations = []
     known_hit = {}
     c20_sites = []
+    fallback_hits = []
+    canaries_total = 0
+    stability = []
     all_obl = []
     failed_obl = set()
     checker_cmds = []
@@ -57,15 +60,52 @@ def conclude(pid, spec, results, tier, seed, wall, kani=()):
         if r.anchor_lost:
             undecided.append('anchor lost in unit %s: %s' % (r.unit, r.anchor_lost))
             continue
+        if getattr(r, 'probe', None):
+            # stability probe (other Z3 seed): never a verdict, only a note in the evidence
+            bad = [d for d in r.diags if d.kind in ('definite', 'resource')]
+            stability.append({'unit': r.unit, 'seed': r.probe, 'ok': not bad and not r.frontend_error,
+                              'unstable_functions': sorted(set(str(d.fn) for d in bad))[:10]})
+            continue
         checker_cmds.append(r.cmd)
         solver_ms += r.smt_ms
+        if r.mode == 'V':
+            # vacuity guard: every emitted canary (requires <pre && ok> ensures false) must FAIL
+            import re as _re
+            if r.frontend_error:
+                undecided.append('unit %s/V: canary file rejected by the front end: %s' % (r.unit, str(r.frontend_error)[:200]))
+                continue
+            txt = open(r.path).read()
+            emitted = {}
+            for ln, tg in (r.linemap or {}).items():
+                if tg and tg[0] == 'canary':
+                    emitted[tg[1]] = True
+            failed = set()
+            for d in r.diags:
+                tg = (r.linemap or {}).get(d.line)
+                if tg and tg[0] == 'canary':
+                    failed.add(tg[1])
+            vac = sorted(set(emitted) - failed)
+            canaries_total += len(emitted)
+            for k in vac:
+                undecided.append('vacuity guard: the precondition of %s is unsatisfiable (canary verified) in unit %s' % (k, r.unit))
+            continue
         for k, v in r.rule_counts.items():
             rule_counts[k] = max(rule_counts.get(k, 0), v)
         for kind, ctx, ln in r.assumed:
             assumed.add('%s: %s' % (kind, ctx))
         if r.frontend_error:
-            undecided.append('unit %s/%s: verifier front-end error (unsupported construct or tool failure): %s'
-                             % (r.unit, r.mode, str(r.frontend_error)[:300]))
+            # The verifier could not even read the (changed) code: no obligation exists, so no verdict.
+            # Fallback (bounded, never counted as proof): differential search with the exact oracle on the
+            # public operations of this unit; a concrete failing input replayed on the real crate is reported
+            # as a violation, otherwise the run stays undecided.
+            w = _frontend_fallback(pid, r, tier, seed)
+            if w is not None:
+                violations.append((r, w[0], w[1]))
+                failed_obl.add('%s [%s] bounded-differential-fallback' % (w[1]['fn'], r.mode))
+                fallback_hits.append(w)
+            else:
+                undecided.append('unit %s/%s: verifier front-end error (unsupported construct or tool failure): %s'
+                                 % (r.unit, r.mode, str(r.frontend_error)[:300]))
             continue
         if r.resource_out:
             for d in r.resource_out:
@@ -173,6 +213,8 @@ def conclude(pid, spec, results, tier, seed, wall, kani=()):
                        'wall_s': round(r.wall_s, 1)} for r in results],
             'extraction_rule_applications': rule_counts,
             'bounded': [],
+            'vacuity_canaries_failed_as_required': canaries_total,
+            'stability_probes': stability,
             'known_findings_hit': [k['id'] + ': ' + k.get('what', '') for k in known_hit.values()],
             'implicit_panic_sites_seen_in_D_run': sorted(set('%s: %s' % (k['fn'], findings.norm(k['expr'])) for _, k in c20_sites)),
             'explanation': _explain(pid, rc, known_hit, n_obl, discharged),
@@ -190,6 +232,42 @@ def conclude(pid, spec, results, tier, seed, wall, kani=()):
     print('%s: %d obligations, %d discharged, %d known findings, %d violations, %.1fs -> exit %d'
           % (pid, n_obl, discharged, len(known_hit), len(violations), wall, rc))
     return rc
+
+
+_FALLBACK_DONE = {}
+
+
+def _frontend_fallback(pid, r, tier, seed):
+    """returns (diag-like, key) with key['witness'] set, or None"""
+    if r.unit in _FALLBACK_DONE:
+        return _FALLBACK_DONE[r.unit]
+    res = None
+    try:
+        import witness
+        import runner as _runner
+        fns = list(getattr(r, 'unit_obj', None).fn_contracts) if getattr(r, 'unit_obj', None) else []
+        seen_ops = set()
+        for fn in fns:
+            ops = tuple(witness.ops_for(fn))
+            if ops in seen_ops:
+                continue
+            seen_ops.add(ops)
+            key = {'fn': fn, 'kind': 'frontend-fallback', 'clause': None, 'expr': ''}
+            w = witness.search(pid, r, None, key, tier, seed)
+            if w:
+                d = _runner.Diag()
+                d.message = 'verifier front end rejected the changed code (%s); bounded differential search found a failing input' % str(r.frontend_error)[:200]
+                d.fn = fn
+                d.rendered = d.message
+                key['witness'] = w
+                res = (d, key)
+                break
+            if len(seen_ops) >= 6:
+                break
+    except Exception:
+        res = None
+    _FALLBACK_DONE[r.unit] = res
+    return res
 
 
 def _explain(pid, rc, known_hit, n_obl, discharged):
